@@ -1026,6 +1026,10 @@ def oracle_C15(cmds, impl, model, stats: Stats):
                 nlocked += 1
                 y = res_mats.get(x[1])
                 if y is None:
+                    if c[0] in ("apply", "transfer", "mat"):
+                        # unary factory calls only ever strip transfers and unlocked markers
+                        out.append(Violation("C15", "locked-node-dropped-from-result",
+                                             f"{cmds[k]}: materialization {x[1]} of the input is gone: {m['tree_text']}"))
                     continue
                 if y[2] != x[2]:
                     out.append(Violation("C15", "locked-node-replaced-by-a-copy",
